@@ -15,7 +15,38 @@ use rotala::http::jura as jh;
 use rotala::http::uist as uh;
 use serde::de::DeserializeOwned;
 use std::cell::Cell;
-use std::sync::Mutex;
+
+/// Uniform access to the server's state whatever std lock its own alias (`UistState` / `JuraState`) names:
+/// the harness must not care whether a maintainer keeps a `Mutex` or moves to an `RwLock`.
+pub trait StateLock<T> {
+    fn make(v: T) -> Self;
+    fn peek<R>(&self, f: impl FnOnce(&T) -> R) -> R;
+    fn peek_mut<R>(&self, f: impl FnOnce(&mut T) -> R) -> R;
+}
+
+impl<T> StateLock<T> for std::sync::Mutex<T> {
+    fn make(v: T) -> Self {
+        std::sync::Mutex::new(v)
+    }
+    fn peek<R>(&self, f: impl FnOnce(&T) -> R) -> R {
+        f(&self.lock().unwrap_or_else(|p| p.into_inner()))
+    }
+    fn peek_mut<R>(&self, f: impl FnOnce(&mut T) -> R) -> R {
+        f(&mut self.lock().unwrap_or_else(|p| p.into_inner()))
+    }
+}
+
+impl<T> StateLock<T> for std::sync::RwLock<T> {
+    fn make(v: T) -> Self {
+        std::sync::RwLock::new(v)
+    }
+    fn peek<R>(&self, f: impl FnOnce(&T) -> R) -> R {
+        f(&self.read().unwrap_or_else(|p| p.into_inner()))
+    }
+    fn peek_mut<R>(&self, f: impl FnOnce(&mut T) -> R) -> R {
+        f(&mut self.write().unwrap_or_else(|p| p.into_inner()))
+    }
+}
 
 #[derive(Clone, Copy, Debug, PartialEq, Eq, serde::Serialize, serde::Deserialize)]
 pub enum Path {
@@ -86,7 +117,7 @@ macro_rules! make_svc {
 // Uist
 // ------------------------------------------------------------------------------------------------
 
-pub type UistData = web::Data<Mutex<uh::AppState>>;
+pub type UistData = web::Data<uh::uistv1_server::UistState>;
 
 pub struct UistServer {
     pub data: UistData,
@@ -103,7 +134,7 @@ pub use uh::uistv1_server::{
 
 impl UistServer {
     pub fn new(state: uh::AppState, path: Path) -> Self {
-        let data: UistData = web::Data::new(Mutex::new(state));
+        let data: UistData = web::Data::new(<uh::uistv1_server::UistState as StateLock<uh::AppState>>::make(state));
         let svc = match path {
             Path::Direct => None,
             Path::Json => Some(make_svc!(
@@ -126,13 +157,11 @@ impl UistServer {
 
     /// Read-only access to the state between requests.
     pub fn with_state<T>(&self, f: impl FnOnce(&uh::AppState) -> T) -> T {
-        let g = self.data.lock().unwrap_or_else(|p| p.into_inner());
-        f(&g)
+        StateLock::peek(&**self.data, f)
     }
 
     pub fn with_state_mut<T>(&self, f: impl FnOnce(&mut uh::AppState) -> T) -> T {
-        let mut g = self.data.lock().unwrap_or_else(|p| p.into_inner());
-        f(&mut g)
+        StateLock::peek_mut(&**self.data, f)
     }
 
     pub fn init(&self, dataset: &str) -> Result<u64, Rej> {
@@ -252,7 +281,7 @@ impl UistServer {
 // Jura
 // ------------------------------------------------------------------------------------------------
 
-pub type JuraData = web::Data<Mutex<jh::AppState>>;
+pub type JuraData = web::Data<jh::jurav1_server::JuraState>;
 
 pub struct JuraServer {
     pub data: JuraData,
@@ -277,7 +306,7 @@ pub struct JTick {
 
 impl JuraServer {
     pub fn new(state: jh::AppState, path: Path) -> Self {
-        let data: JuraData = web::Data::new(Mutex::new(state));
+        let data: JuraData = web::Data::new(<jh::jurav1_server::JuraState as StateLock<jh::AppState>>::make(state));
         let svc = match path {
             Path::Direct => None,
             Path::Json => Some(make_svc!(
@@ -298,13 +327,11 @@ impl JuraServer {
     }
 
     pub fn with_state<T>(&self, f: impl FnOnce(&jh::AppState) -> T) -> T {
-        let g = self.data.lock().unwrap_or_else(|p| p.into_inner());
-        f(&g)
+        StateLock::peek(&**self.data, f)
     }
 
     pub fn with_state_mut<T>(&self, f: impl FnOnce(&mut jh::AppState) -> T) -> T {
-        let mut g = self.data.lock().unwrap_or_else(|p| p.into_inner());
-        f(&mut g)
+        StateLock::peek_mut(&**self.data, f)
     }
 
     pub fn init(&self, dataset: &str) -> Result<u64, Rej> {
